@@ -198,7 +198,7 @@ def check_case(case):
     text, walker, container = case["text"], case.get("walker", "etree"), case.get("container")
     lists = default_lists() if not case.get("mask") else restricted_lists(int(case["mask"]))
     try:
-        r, p = h5.parse(text, builder=walker, container=container, full_tree=True)
+        r, p = h5.parse(text, builder=walker, container=container, full_tree=True, namespace=bool(case.get("namespace", True)))
         toks = list(h5.walk(r, walker))
     except Exception as e:
         return Verdict("excluded", finding="parse/walk raised %s (C03/C11's subject)" % type(e).__name__)
@@ -336,6 +336,8 @@ def run_shard(desc, seed, tier):
     def fn(x):
         data, mask, walker, container = x
         case = {"text": decode_attack(data), "mask": mask, "walker": walker, "container": container}
+        if data and data[-1] % 4 == 0:
+            case["namespace"] = False
         acc.add(case, check_case(case))
     drive(strat, fn, desc["n"], seed)
     return acc
